@@ -73,7 +73,7 @@ Section Statements.
     write_truncated_start cw sw data ell max = (out, w) ->
     sw data = swidth cw data -> sw ell = swidth cw ell ->
     w = swidth cw out /\ (swidth cw out <= max)%nat
-    /\ ((swidth cw data <= max)%nat -> out = trim_start_zero cw data)
+    /\ ((swidth cw data <= max)%nat -> out = data)
     /\ ((max < swidth cw data)%nat ->
         exists t e p q, out = e ++ t /\ data = p ++ t /\ ell = q ++ e).
   Proof. exact (write_truncated_start_spec cw). Qed.
@@ -112,11 +112,12 @@ Theorem C44_truncated_bound_refuted :
     (max < swidth cw out)%nat /\ (max < w)%nat.
 Proof. exact truncated_end_bound_refuted. Qed.
 
-Theorem C44_truncated_start_fits_refuted :
+Theorem C44_truncated_start_old_fits_refuted :
   exists (cw : bool -> nat) data max,
     (swidth cw data <= max)%nat /\
-    fst (write_truncated_start cw (swidth cw) data [] max) <> data.
-Proof. exact truncated_start_fits_refuted. Qed.
+    fst (write_truncated_start_old cw (swidth cw) data [] max) <> data
+    /\ fst (write_truncated_start cw (swidth cw) data [] max) = data.
+Proof. exact truncated_start_old_fits_refuted. Qed.
 
 (** Meaning of the checkers run on the implementation's outputs. *)
 Theorem C44_elide_checker_spec : forall start text ell max out w,
